@@ -211,8 +211,10 @@ func CreateAuthenticators(cfg AuthConfig) []Authenticator {
 		if len(cfg.HashedUsers) > 0 {
 			creds := HashedCredentials(cfg.HashedUsers)
 			auths = append(auths, NewUserPassAuthenticator(creds))
-		} else if len(cfg.Users) > 0 {
-			// Fall back to plaintext credentials (deprecated)
+		} else {
+			// Fall back to plaintext credentials (deprecated). With no usable user at
+			// all the (empty) store rejects everyone: enabled authentication must never
+			// degrade to an empty authenticator list, which servers treat as "no auth".
 			creds := StaticCredentials(cfg.Users)
 			auths = append(auths, NewUserPassAuthenticator(creds))
 		}
